@@ -25,7 +25,8 @@ fn check_break_assignment(context: &CheckerContext) -> GenericResult<()> {
         let matched_break_count = tour.stops.iter().try_fold(0, |acc, stop| {
             stop.activities()
                 .windows(stop.activities().len().min(2))
-                .flat_map(|leg| as_leg_info_with_break(context, tour, stop, leg))
+                .enumerate()
+                .flat_map(|(leg_idx, leg)| as_leg_info_with_break(context, tour, stop, leg_idx, leg))
                 .try_fold::<_, _, GenericResult<_>>(
                     acc,
                     |acc, (from_loc, (from, to), (break_activity, vehicle_break))| {
@@ -133,6 +134,7 @@ fn as_leg_info_with_break<'a>(
     context: &CheckerContext,
     tour: &Tour,
     stop: &'a Stop,
+    leg_idx: usize,
     leg: &'a [Activity],
 ) -> Option<LegBreakInfo<'a>> {
     let leg = match leg {
@@ -143,7 +145,8 @@ fn as_leg_info_with_break<'a>(
 
     if let Some((from, to)) = leg {
         if let Some((break_activity, vehicle_break)) = once(to)
-            .chain(from.iter().cloned())
+            // NOTE: a break in the middle of the stop is seen by two legs, count it once
+            .chain(from.iter().cloned().filter(|_| leg_idx == 0))
             .flat_map(|activity| context.get_activity_type(tour, stop, activity).map(|at| (activity, at)))
             .filter_map(|(activity, activity_type)| match activity_type {
                 ActivityType::Break(vehicle_break) => Some((activity, vehicle_break)),
